@@ -46,6 +46,12 @@ def scenarios(c):
                 for k in range(1, kmax + 1):
                     for kind in (('error', 'short', 'eintr') if op == 'write' else (('error',) if op == 'open' else ('error', 'eintr'))):
                         S.append({'kind': 'crypt', 'what': what, 'size': sz, 'pw': 's', 'fault': {'op': op, 'k': k, 'kind': kind}}); c.distinct([(what, sz, op, k, kind)])
+    # every second failing scenario finds an older file under the output name: it must be gone afterwards too
+    n = 0
+    for sc in S:
+        if sc['kind'] == 'crypt' and sc['what'] in ('wrongpw', 'flip', 'trunc', 'extend', 'fault_enc', 'fault_dec'):
+            n += 1
+            if n % 2 == 0: sc['preexist'] = 1
     # key file generation: healthy, failing source, failing open, failing k-th write
     S.append({'kind': 'genkey'})
     for op, kmax in (('getrandom', 1), ('open', 1), ('write', 4)):
@@ -61,6 +67,13 @@ def scenarios(c):
         S.append({'kind': 'sumcheck', 'alg': alg, 'files': [{'content': [9]}, {'content': [7], 'remove': 1}]})
         S.append({'kind': 'sumcheck', 'alg': alg, 'files': [{'content': [9]}], 'bad_lines': ['not a checksum line', 'abcd  short', 'g' * 64 + '  f0.bin']})
         S.append({'kind': 'sumcheck', 'alg': alg, 'files': [{'content': [], 'modify': 1}]})
+    # check lists as other tools and editors leave them: CRLF, upper-case digests, no newline after the last line, from stdin
+    for alg in ('h', 'a'):
+        for shape in ({'no_final_newline': 1}, {'eol': 'crlf'}, {'eol': 'crlf', 'no_final_newline': 1}, {'upper': 1}, {'stdin': 1}, {'stdin': 1, 'no_final_newline': 1}):
+            for nf in (1, 3):
+                sc = {'kind': 'sumcheck', 'alg': alg, 'files': [{'content': list(pattern(rng, rng.choice([0, 5, 100])))} for _ in range(nf)]}
+                if nf == 3: sc['files'][1]['modify'] = 2
+                sc.update(shape); S.append(sc); c.distinct([('listshape', alg, tuple(sorted(shape)), nf)])
     # asconsum with a read error at the k-th read of the data file (injected with strace: the tool reads through stdio)
     for alg in 'haxy':
         for sz in (100, BUF + BUF // 2):
